@@ -9,3 +9,4 @@ CONSTANTS
  SeqLen = 3
  PairLen = 2
  Generic = FALSE
+ Deeps = {5}
